@@ -305,6 +305,7 @@ def run_config(args):
             S = lay["S"]
             buf = io.StringIO()
             status, detail, nread = "match", None, 0
+            compact = None
             try:
                 with contextlib.redirect_stdout(buf):
                     ds = osyris.RamsesDataset(nout, path=d)
@@ -315,6 +316,8 @@ def run_config(args):
                     else:
                         ds.load(**kw)
                 detail = compare_dataset(cfg, lay, call, ds)
+                if with_log and (idx + ci) % 7 == 0:
+                    compact = [{"k": filemap[c0][0], "f": int(filemap[c0][1]), "t": t0, "n": int(m0), "off": int(o0), "head": bool(h0)} for c0, t0, m0, o0, h0 in log.events if c0 in filemap]
                 if detail and cfg.get("hilbert3") and "position" in call["kind"]:
                     # the as-found pre-selection (Hilbert!CpuListOf) misses the owner of a qualifying leaf that is coarser than
                     # the search cubes (DESIGN D17): such a case is classified, not silenced - the result must then be
@@ -343,7 +346,7 @@ def run_config(args):
                 detail = f"load raised {type(e).__name__}: {e}"
             if detail:
                 status = "mismatch"
-            out.append((idx, ci, call, status, detail, nread))
+            out.append((idx, ci, call, status, detail, nread, compact))
     finally:
         shutil.rmtree(d, ignore_errors=True)
     return out
@@ -369,10 +372,14 @@ def run_batch(rep, cfgs, lays, kinds, label, with_log=False):
     import osyris  # noqa: F401  (before fork)
     jobs = [(i + 1, c, l, kinds, with_log) for i, (c, l) in enumerate(zip(cfgs, lays))]
     n = nm = nreads = 0
+    traces = []
+    max_traces = 60 if rep.tier == "quick" else 600
     with mp.get_context("fork").Pool(min(16, os.cpu_count() or 1)) as pool:
         for res in pool.imap_unordered(run_config, jobs, chunksize=2):
-            for idx, ci, call, status, detail, nread in res:
+            for idx, ci, call, status, detail, nread, compact in res:
                 cfg = cfgs[idx - 1]
+                if compact and len(traces) < max_traces:
+                    traces.append({"cfg": idx, "events": compact, "call": call["kind"]})
                 n += 1
                 nreads += nread
                 rep.case(klass=(call["kind"], cfg["ndim"], cfg["ncpu"], cfg["nboundary"], cfg["levelmax"], len(cfg["octs"]), call.get("form", ""), ci))
@@ -385,7 +392,48 @@ def run_batch(rep, cfgs, lays, kinds, label, with_log=False):
                                  f"configuration {cfg_summary(cfg)} call {call}: {detail}",
                                  case={"cfg": cfg, "call_index": ci}, module="loader")
     rep.part(label, configurations=len(cfgs), calls=n, mismatches=nm, reads_checked_for_alignment=nreads)
+    if with_log and traces:
+        validate_read_traces(rep, cfgs, traces, label)
     return n
+
+
+def validate_read_traces(rep, cfgs, traces, label):
+    """C -> S: recorded read logs validated by tla/TraceLayout.tla against the grammar of RamsesLayout"""
+    wd = os.path.join(common.WORK, "layout", label + "-traces")
+    os.makedirs(wd, exist_ok=True)
+    slim = [{k: v for k, v in c.items() if k not in ("calls", "units", "boxlen", "nout", "ordering", "sink", "bound_keys", "hist")} for c in cfgs]
+    with open(os.path.join(wd, "cfgs.json"), "w") as f:
+        json.dump(slim, f)
+    # negative control: the last trace is a copy of the first with one offset shifted by 4 bytes
+    ctl = json.loads(json.dumps(traces[0]))
+    k = len(ctl["events"]) // 2
+    ctl["events"][k]["off"] += 4
+    with open(os.path.join(wd, "traces.json"), "w") as f:
+        json.dump([{"cfg": t["cfg"], "events": t["events"]} for t in traces + [ctl]], f)
+    res = common.run_tlc("TraceLayout", "TraceLayout.cfg", env={"CFG_FILE": os.path.join(wd, "cfgs.json"), "TRACE_FILE": os.path.join(wd, "traces.json"), "OUT_DIR": wd},
+                         workers=1, timeout=1800)
+    rep.tlc(res, label + " read-log traces (TraceLayout)")
+    verdicts = {t[1]: (t[2], t[3]) for t in res.tuples("TRACE")}
+    rejects = {t[1]: t for t in res.tuples("REJECT")}
+    if len(verdicts) != len(traces) + 1:
+        raise MachineryError(f"TraceLayout returned {len(verdicts)} verdicts for {len(traces) + 1} traces")
+    m, ln = verdicts[len(traces) + 1]
+    if m == ln:
+        raise MachineryError("negative control: a read log with a shifted offset was accepted by TraceLayout")
+    acc = 0
+    for i, t in enumerate(traces, 1):
+        m, ln = verdicts[i]
+        rep.case(klass=("read-trace", t["call"], t["cfg"]))
+        if m == ln:
+            acc += 1
+            rep.validated()
+        else:
+            ev = t["events"][m]
+            rep.mismatch({"module": "TraceLayout", "field": "misaligned-read", "kind": ev["k"]},
+                         f"configuration {cfg_summary(cfgs[t['cfg'] - 1])} call {t['call']}: read {m + 1} of the recorded log ({ev}) does not hit a record of the {ev['k']} file of cpu {ev['f']}",
+                         case={"cfg": cfgs[t["cfg"] - 1], "call_index": 0}, module="loader")
+    rep.part(label + "-traces", traces=len(traces), accepted=acc, events=sum(len(t["events"]) for t in traces), negative_control_rejected=True)
+    shutil.rmtree(wd, ignore_errors=True)
 
 
 def replay(rep, rec):
@@ -395,7 +443,7 @@ def replay(rep, rec):
     c2 = dict(cfg, calls=[cfg["calls"][ci]])
     import osyris  # noqa
     res = run_config((2, c2, lays[0], None, True))
-    for idx, _, call, status, detail, nread in res:
+    for idx, _, call, status, detail, nread, _c in res:
         print("replay verdict:", status, detail or "")
         if status == "mismatch":
             rep.mismatch(rec["sig"], detail, case=rec["case"], module="loader")
